@@ -53,6 +53,12 @@ CLAIMED = {
  "C19": dict(cat="exploration", technique="fault injection into valid patches with a position oracle (injector knows the corrupted token's byte offset)",
    text="One header or metavariable fault of 16 kinds is injected at a random change of a 1-5 change patch with comment/blank lines, tabs and multi-byte characters before it; the diagnostic (patch.Parse error, CLI stderr via -p relative/absolute and stdin) must contain '<patch>:<line>:<byte column>' of the offending token, exit must be non-zero, the patch file must be named, and the target file must not change.",
    note="Byte columns as go/token counts them; for a missing type the offending token is the end of the line.", ref="5/C19"),
+ "C07": dict(cat="exploration", technique="go/parser oracle on every emitted content (written, printed, diff-applied, returned) over misfit and random patches in all modes and flags",
+   text="11 patches that compile but splice code where it does not fit, each with a file on which the result is unparseable and one on which it is fine, plus random patterns, are run in place, with --print-only, with --diff (printed diff applied) and through the library, crossed with --skip-import-processing, --skip-generated and -v; every emitted content is parsed the way gopatch parses its inputs; success with unparseable content, or a failure that still emitted it, is a violation, and good files next to a misfit must still be processed.",
+   note="The semantic checks C01-C05 additionally flag any unparseable output they see.", ref="5/C07"),
+ "C08": dict(cat="exploration", technique="mutation/grammar fuzzing in supervised worker subprocesses (BEGIN/END protocol, panic recovery, CPU-time and RSS watchdogs, solo re-run under RLIMIT_CPU) + CLI exit/stderr classifier",
+   text="Every patch of testdata/, examples/ and the harness' schema libraries is mutated (truncation, token insertion/replacement, span/line deletion, duplication, swaps, prefix flips, random bytes), complemented by grammar-generated ill-typed patches and random strings; accepted patches are applied to 12 construct-covering targets. Panics, fatal errors, exit statuses other than 0/1, CPU exhaustion (decided on CPU time, confirmed alone under RLIMIT_CPU) and memory blow-up are violations, de-duplicated by top in-repo frame.",
+   note="Hangs are decided on consumed CPU time, never wall-clock; a wall-clock watchdog only makes a run inconclusive (exit 2).", ref="5/C08"),
 #NEXT
 }
 
